@@ -58,14 +58,26 @@ type VerifC28Rec struct {
 	LastPollAge time.Duration
 	HasLastSeen bool
 	LastSeenAge time.Duration
-	Version     uint64
-	Assets      []string
-	PeerAllowed bool
-	BTCIn       int64
-	BTCOut      int64
-	LBTCIn      int64
-	LBTCOut     int64
-	BadJSON     bool
+	// whole seconds (floor) of the two ages, computed without the int64
+	// saturation of time.Duration (filled by VerifC28Dump only)
+	LastPollAgeSec int64
+	LastSeenAgeSec int64
+	Version        uint64
+	Assets         []string
+	PeerAllowed    bool
+	BTCIn          int64
+	BTCOut         int64
+	LBTCIn         int64
+	LBTCOut        int64
+	BadJSON        bool
+}
+
+func verifC28AgeSec(now, t time.Time) int64 {
+	secs := now.Unix() - t.Unix()
+	if now.Nanosecond() < t.Nanosecond() {
+		secs--
+	}
+	return secs
 }
 
 // VerifC28Dump lists the raw stored records in key order.
@@ -91,10 +103,12 @@ func VerifC28Dump(s *Store) ([]VerifC28Rec, error) {
 			if !r.LastPollAt.IsZero() {
 				rec.HasLastPoll = true
 				rec.LastPollAge = now.Sub(r.LastPollAt)
+				rec.LastPollAgeSec = verifC28AgeSec(now, r.LastPollAt)
 			}
 			if !r.LastSeen.IsZero() {
 				rec.HasLastSeen = true
 				rec.LastSeenAge = now.Sub(r.LastSeen)
+				rec.LastSeenAgeSec = verifC28AgeSec(now, r.LastSeen)
 			}
 			rec.Version = r.Version
 			rec.Assets = append([]string(nil), r.Assets...)
